@@ -1,6 +1,6 @@
 //! Scenario registry: every scenario is one `loom::model::Builder::check` of a tiny driver.
 use crate::bcast::{self, BcastScen};
-use crate::chan::Flavour;
+use crate::chan::{Flavour, Mix};
 use crate::locks::{self, LockScen};
 use crate::prog::{ChanScen, Step, ThreadProg};
 
@@ -50,6 +50,7 @@ struct Shape {
     name: &'static str,
     cap: Option<usize>,
     asyn: bool,
+    mix: Mix,
     n_tx: u8,
     n_rx: u8,
     drains: bool,
@@ -80,7 +81,7 @@ impl ChanBuilder {
         } else {
             (Some(2), Some(4))
         };
-        let body = ChanScen { flavour: fl, cap: sh.cap, asyn: sh.asyn, n_tx: sh.n_tx, n_rx: sh.n_rx, threads: sh.threads, drains: sh.drains, prefill: sh.prefill };
+        let body = ChanScen { flavour: fl, cap: sh.cap, asyn: sh.asyn, mix: sh.mix, n_tx: sh.n_tx, n_rx: sh.n_rx, threads: sh.threads, drains: sh.drains, prefill: sh.prefill };
         // loom's bounded DPOR starts every exploration with the main thread running until it blocks
         // and does not reach every schedule inside the nominal bound (measured: a consumer on the
         // main thread never sees its first try_recv succeed). Two-thread shapes are therefore run
@@ -98,7 +99,7 @@ impl ChanBuilder {
                 name: vname,
                 component: fl.name().into(),
                 shape: shape_full.clone(),
-                props: if sh.asyn { CHAN_PROPS.iter().copied().chain(["C06"]).collect() } else { CHAN_PROPS.to_vec() },
+                props: if sh.asyn || sh.mix != Mix::Native { CHAN_PROPS.iter().copied().chain(["C06"]).collect() } else { CHAN_PROPS.to_vec() },
                 threads: nthreads,
                 ops,
                 cap: cap_name(sh.cap),
@@ -125,6 +126,9 @@ fn tier_override(name: &str) -> Option<(Option<usize>, Option<usize>)> {
         ("mpmc_bounded/backpressure_prefilled_trydrain_cap1@swap", Some(1), Some(2)),
         ("mpmc_bounded/backpressure_prefilled_cap1@swap", Some(1), Some(2)),
         ("mpmc_bounded/async_backpressure_prefilled_cap1@swap", Some(1), Some(2)),
+        ("mpmc_bounded/send2_vs_drain_batch2_cap1", Some(1), Some(2)),
+        ("mpmc_bounded/mix_synctx_asyncrx_send2_drain_cap1", Some(1), Some(2)),
+        ("mpmc_bounded/mix_asynctx_syncrx_send2_drain_cap1", Some(1), Some(2)),
         // three threads on the lock-based flavours
         ("mpmc_bounded/2p1c_send1_each_cap1", None, Some(0)),
         ("mpmc_bounded/2p1c_send1_each_cap2", Some(0), Some(1)),
@@ -158,7 +162,7 @@ fn caps_of(fl: Flavour, bounded: &[usize]) -> Vec<Option<usize>> {
 pub fn channel_scenarios() -> Vec<Scenario> {
     use Step::*;
     let mut b = ChanBuilder { out: Vec::new() };
-    let sh = |name: &'static str, cap: Option<usize>, threads: Vec<ThreadProg>| Shape { name, cap, asyn: false, n_tx: 1, n_rx: 1, drains: true, prefill: vec![], threads };
+    let sh = |name: &'static str, cap: Option<usize>, threads: Vec<ThreadProg>| Shape { name, cap, asyn: false, mix: Mix::Native, n_tx: 1, n_rx: 1, drains: true, prefill: vec![], threads };
     for fl in Flavour::ALL {
         // A: producer sends two and leaves; consumer probes once, blocks until Disconnected, probes again.
         //    cap 1: the producer must park and be woken; the consumer parks on empty and is woken.
@@ -261,6 +265,40 @@ pub fn channel_scenarios() -> Vec<Scenario> {
                 }
             }
         }
+        // P: batch receives (blocking / awaited recv_batch until Disconnected) against single and batch sends
+        if fl.has_batch() {
+            for cap in caps_of(fl, &[1, 2]) {
+                b.add(fl, sh("send2_vs_drain_batch2", cap, vec![tp(None, Some(0), vec![TryRecvBatch(2), DrainBatch(2)]), tp(Some(0), None, vec![Send(1), Send(2)])]));
+            }
+            for cap in caps_of(fl, &[2]) {
+                b.add(fl, sh("send_batch2_vs_drain_batch2", cap, vec![tp(None, Some(0), vec![DrainBatch(2)]), tp(Some(0), None, vec![SendBatch(vec![1, 2])])]));
+                b.add(fl, Shape { asyn: true, ..sh("async_send2_vs_drain_batch2", cap, vec![tp(None, Some(0), vec![DrainBatch(2)]), tp(Some(0), None, vec![Send(1), Send(2)])]) });
+            }
+        }
+        // Q: the timed receive parks for real (hook H7: untimed loom park, deadline never reached) and must be woken
+        for cap in caps_of(fl, &[1]) {
+            b.add(fl, sh("tlong_vs_send", cap, vec![tp(None, Some(0), vec![TryRecv, RecvTLong, Drain]), tp(Some(0), None, vec![Send(1)])]));
+            b.add(fl, sh("tlong_vs_txdrop", cap, vec![tp(None, Some(0), vec![RecvTLong]), tp(Some(0), None, vec![])]));
+        }
+        // R: explicit close() instead of drop
+        for cap in caps_of(fl, &[1]) {
+            b.add(fl, sh("txclose_vs_recv", cap, vec![tp(None, Some(0), vec![TryRecv, Drain]), tp(Some(0), None, vec![Send(1), CloseTx])]));
+            b.add(fl, Shape { drains: false, ..sh("rxclose_vs_send2", cap, vec![tp(None, Some(0), vec![CloseRx]), tp(Some(0), None, vec![Send(1), Send(2)])]) });
+            b.add(fl, Shape { asyn: true, ..sh("async_txclose_vs_recv", cap, vec![tp(None, Some(0), vec![Drain]), tp(Some(0), None, vec![Send(1), CloseTx])]) });
+            if !fl.is_unbounded() {
+                b.add(fl, Shape { asyn: true, drains: false, ..sh("async_rxclose_vs_send2", cap, vec![tp(None, Some(0), vec![CloseRx]), tp(Some(0), None, vec![Send(1), Send(2)])]) });
+            }
+        }
+        // S: sync and async handles mixed on one channel (one side converted with to_async())
+        for cap in caps_of(fl, &[1]) {
+            b.add(fl, Shape { mix: Mix::TxSyncRxAsync, ..sh("mix_synctx_asyncrx_send2_drain", cap, vec![tp(None, Some(0), vec![TryRecv, Drain]), tp(Some(0), None, vec![Send(1), Send(2)])]) });
+            b.add(fl, Shape { mix: Mix::TxAsyncRxSync, ..sh("mix_asynctx_syncrx_send2_drain", cap, vec![tp(None, Some(0), vec![TryRecv, Drain]), tp(Some(0), None, vec![Send(1), Send(2)])]) });
+            if !fl.is_unbounded() {
+                b.add(fl, Shape { mix: Mix::TxSyncRxAsync, drains: false, ..sh("mix_synctx_asyncrx_rxdrop_vs_send2", cap, vec![tp(None, Some(0), vec![DropRx]), tp(Some(0), None, vec![Send(1), Send(2)])]) });
+                b.add(fl, Shape { mix: Mix::TxAsyncRxSync, drains: false, ..sh("mix_asynctx_syncrx_rxdrop_vs_send2", cap, vec![tp(None, Some(0), vec![DropRx]), tp(Some(0), None, vec![Send(1), Send(2)])]) });
+            }
+            b.add(fl, Shape { mix: Mix::TxSyncRxAsync, ..sh("mix_synctx_asyncrx_txdrop_vs_recv", cap, vec![tp(None, Some(0), vec![TryRecv, Recv]), tp(Some(0), None, vec![])]) });
+        }
         // M: async handles on the mini executor
         for cap in caps_of(fl, &[1]) {
             b.add(fl, Shape { asyn: true, ..sh("async_1p1c_send2_drain", cap, vec![tp(None, Some(0), vec![TryRecv, Drain]), tp(Some(0), None, vec![Send(1), Send(2)])]) });
@@ -279,7 +317,7 @@ pub fn oneshot_scenarios() -> Vec<Scenario> {
     use Step::*;
     let mut b = ChanBuilder { out: Vec::new() };
     let fl = Flavour::Oneshot;
-    let sh = |name: &'static str, threads: Vec<ThreadProg>| Shape { name, cap: Some(1), asyn: true, n_tx: 1, n_rx: 1, drains: true, prefill: vec![], threads };
+    let sh = |name: &'static str, threads: Vec<ThreadProg>| Shape { name, cap: Some(1), asyn: true, mix: Mix::Native, n_tx: 1, n_rx: 1, drains: true, prefill: vec![], threads };
     // the receiver awaits the value while the only sender sends and goes away
     b.add(fl, sh("send_vs_recv", vec![tp(None, Some(0), vec![Recv]), tp(Some(0), None, vec![TrySend(1)])]));
     // ... or probes first (try_recv racing the WRITING -> SENT window), then awaits
